@@ -9,7 +9,7 @@ pub struct Uuid;
 thread_local! { static CTR: RefCell<u64> = RefCell::new(0); }
 impl Uuid { pub fn new_v4() -> Uuid { Uuid } }
 impl std::fmt::Display for Uuid { fn fmt(&self, f: &mut std::fmt::Formatter<'_>) -> std::fmt::Result { let n = CTR.with(|c| { *c.borrow_mut() += 1; *c.borrow() }); write!(f, "cp-{n}") } }
-fn now_ms() -> u64 { 0 }
+fn now_ms() -> u64 { std::time::SystemTime::now().duration_since(std::time::UNIX_EPOCH).map(|d| d.as_millis() as u64).unwrap_or(0) }      // the real clock: a checkpoint is stamped with the time it was taken
 fn hash_bytes(b: &[u8]) -> String { format!("h{}", b.len()) }
 //@@ item crates/rip-workspace/src/lib.rs struct CheckpointFile
 //@@ item crates/rip-workspace/src/lib.rs struct Checkpoint
@@ -133,6 +133,62 @@ fn main() {
         if root.join("stolen.txt").exists() {
             println!("WITNESS {{\"function\": \"WorkspaceCheckpointHook::rewind\", \"checkpoint_id\": {:?}, \"planted_record_claims_that_id\": true, \"rewind_result\": {:?}, \"problem\": \"a file from outside the workspace root was read and copied into it\"}}", evil, res);
             let _ = fs::remove_dir_all(&base); return;
+        }
+    }
+    // two names that differ only in case are two files (on a case-sensitive file system): both are covered, both are restored
+    {
+        let root = base.join("casepair"); fs::create_dir_all(&root).unwrap();
+        let ws = Workspace { root: root.clone(), checkpoints_dir: root.join(".rip").join("checkpoints") };
+        fs::create_dir_all(&ws.checkpoints_dir).unwrap();
+        fs::write(root.join("Makefile"), "gnu v1").unwrap(); fs::write(root.join("makefile"), "bsd v1").unwrap();
+        if fs::read(root.join("Makefile")).ok() != fs::read(root.join("makefile")).ok() {      // skipped on a case-insensitive file system
+            let req = vec![root.join("Makefile"), root.join("makefile"), root.join("Makefile")];
+            match ws.create_checkpoint("s", "l", &req) {
+                Ok(cp) => {
+                    fs::write(root.join("Makefile"), "gnu v2").unwrap(); fs::write(root.join("makefile"), "bsd v2").unwrap();
+                    let res = ws.rewind_to_checkpoint("s", &cp.id).map(|_| ()).map_err(|e| e.to_string());
+                    let got = (fs::read_to_string(root.join("Makefile")).ok(), fs::read_to_string(root.join("makefile")).ok());
+                    if res.is_ok() && got != (Some("gnu v1".to_string()), Some("bsd v1".to_string())) {
+                        println!("WITNESS {{\"function\": \"Workspace::create_checkpoint + rewind_to_checkpoint\", \"requested\": [\"Makefile\", \"makefile\", \"Makefile\"], \"at_checkpoint\": [\"gnu v1\", \"bsd v1\"], \"after_rewind\": {:?}, \"problem\": \"a file named in the checkpoint request was not restored by the successful rewind (names that differ only in case are different files)\"}}", got);
+                        let _ = fs::remove_dir_all(&base); return;
+                    }
+                }
+                Err(e) => { println!("WITNESS {{\"function\": \"Workspace::create_checkpoint\", \"requested\": [\"Makefile\", \"makefile\", \"Makefile\"], \"problem\": \"a request naming files inside the root was refused: {}\"}}", e); let _ = fs::remove_dir_all(&base); return; }
+            }
+        }
+    }
+    // a covered file replaced after the checkpoint by a file with an OLD modification time (mv of a backup, cp -p, tar x) is restored
+    // like any other: what is compared is content, not time stamps
+    {
+        let root = base.join("oldmtime"); fs::create_dir_all(&root).unwrap();
+        let ws = Workspace { root: root.clone(), checkpoints_dir: root.join(".rip").join("checkpoints") };
+        fs::create_dir_all(&ws.checkpoints_dir).unwrap();
+        fs::write(root.join("config.toml"), "checkpointed").unwrap();
+        if let Ok(cp) = ws.create_checkpoint("s", "l", &[root.join("config.toml")]) {
+            fs::write(root.join("config.toml"), "old backup").unwrap();
+            let old = std::time::UNIX_EPOCH + std::time::Duration::from_secs(1_000_000_000);
+            let stamped = fs::File::options().write(true).open(root.join("config.toml")).and_then(|f| f.set_modified(old)).is_ok();
+            let res = ws.rewind_to_checkpoint("s", &cp.id).map(|_| ()).map_err(|e| e.to_string());
+            let got = fs::read_to_string(root.join("config.toml")).ok();
+            if stamped && res.is_ok() && got.as_deref() != Some("checkpointed") {
+                println!("WITNESS {{\"function\": \"Workspace::rewind_to_checkpoint\", \"covered\": \"config.toml\", \"at_checkpoint\": \"checkpointed\", \"replaced_by\": \"old backup (modification time set to 2001)\", \"after_rewind\": {:?}, \"problem\": \"a covered file whose content changed was not restored by the successful rewind\"}}", got);
+                let _ = fs::remove_dir_all(&base); return;
+            }
+        }
+    }
+    // a request that is refused because of its LAST path leaves nothing behind either (the paths before it were not copied yet)
+    {
+        let root = base.join("refused_late"); fs::create_dir_all(root.join("src")).unwrap();
+        let ws = Workspace { root: root.clone(), checkpoints_dir: root.join(".rip").join("checkpoints") };
+        fs::create_dir_all(&ws.checkpoints_dir).unwrap();
+        fs::write(root.join("src").join("a.txt"), "a").unwrap(); fs::write(root.join("b.txt"), "b").unwrap();
+        let n0 = store_entries(&root);
+        for bad in ["/etc/hostname", "../outside.txt"] {
+            let refused = ws.create_checkpoint("s", "l", &[root.join("src").join("a.txt"), PathBuf::from("b.txt"), PathBuf::from(bad)]);
+            if refused.is_ok() || store_entries(&root) != n0 {
+                println!("WITNESS {{\"function\": \"Workspace::create_checkpoint\", \"requested\": [\"src/a.txt\", \"b.txt\", {:?}], \"accepted\": {}, \"store_entries_before\": {}, \"store_entries_after\": {}, \"problem\": \"a path outside the workspace was accepted or its refusal left entries (copies of the files named before it) in the checkpoint store\"}}", bad, refused.is_ok(), n0, store_entries(&root));
+                let _ = fs::remove_dir_all(&base); return;
+            }
         }
     }
     let files = ["a.txt", "d/b\\c.txt"];      // the second name holds a backslash: on Unix an ordinary character of the file name
